@@ -131,6 +131,24 @@ def r_optkey(prog, tier):
                         p = q
                         if isinstance(q, ast.stmt):
                             break
+                if not ok:
+                    # inside a `try` whose handler catches the missing key
+                    if parents is None:
+                        parents = _parents(f)
+                    p = n
+                    while p in parents and not ok:
+                        q = parents[p]
+                        if isinstance(q, ast.Try) and any(p is b_ or p in ast.walk(b_) for b_ in q.body):
+                            for h_ in q.handlers:
+                                names_ = [h_.type] if not isinstance(h_.type, ast.Tuple) else list(h_.type.elts)
+                                if h_.type is None or any(isinstance(x_, ast.Name) and x_.id in ('KeyError', 'LookupError', 'Exception')
+                                                          for x_ in names_ if x_ is not None):
+                                    ok = True
+                                    why = 'inside `try`, the missing key is caught by `except %s`' % (
+                                        unparse(h_.type) if h_.type is not None else '')
+                        p = q
+                        if isinstance(q, (ast.FunctionDef,)):
+                            break
                 if not ok and (f.fq, k) in MANDATORY:
                     ok = True
                     why = 'MANDATORY table: ' + MANDATORY[(f.fq, k)]
@@ -313,10 +331,10 @@ def r_decor(prog, tier):
     cfg = f.cfg
     kw = f.kwarg
     if not kw:
-        raise Unrecognised('get_label has no **params')
+        raise Unrecognised('get_label has no **params', partial=obs)
     rets = [n for n in cfg.eval_nodes() if n.kind == 'stmt' and isinstance(n.ast, ast.Return)]
     if not rets:
-        raise Unrecognised('get_label has no return')
+        raise Unrecognised('get_label has no return', partial=obs)
     comps_of = {}
     for r in rets:
         comps_of[r.id] = _flatten_components(r.ast.value, f, r.id) if r.ast.value is not None else []
@@ -705,6 +723,7 @@ def r_sibling(prog, tier):
         y = ys[0]
         yv = unparse(y.ast.value.value)
         ok = False
+        other_table = None
         why = 'no loop over trees.preorder(%s) calling trees.replace_chars(., trees.BRACKETS) under ' \
               '`\'replace_parens\' in params` before the yield' % yv
         for n in cfg.eval_nodes():
@@ -721,7 +740,19 @@ def r_sibling(prog, tier):
                                     and cfg.in_every_iteration(n.id, m.id):
                                 ok = True
                                 why = 'for %s in trees.preorder(%s): trees.replace_chars(%s, trees.BRACKETS)' % (tv, yv, tv)
+                            elif isinstance(sub, ast.Call) and prog.callee(sub, f) == ('trees', 'replace_chars') \
+                                    and len(sub.args) == 2 and unparse(sub.args[0]) == tv \
+                                    and isinstance(sub.args[1], ast.Attribute) and unparse(sub.args[1].value) == 'trees' \
+                                    and sub.args[1].attr != 'BRACKETS' and any(
+                                        isinstance(st_, ast.Assign) and isinstance(st_.targets[0], ast.Name)
+                                        and st_.targets[0].id == sub.args[1].attr and isinstance(st_.value, (ast.Dict, ast.Call))
+                                        for st_ in prog.modules['trees'].tree.body):
+                                other_table = unparse(sub.args[1])
         verdict = True if ok else None
+        if not ok and other_table:
+            verdict = False
+            why = 'under replace_parens this reader maps the brackets with the table `%s`, the other readers and the ' \
+                  'writers with trees.BRACKETS: the same option has a different effect depending on the format' % other_table
         if not ok:
             # the loop may live in a helper called under the option
             for n in cfg.eval_nodes():
@@ -857,7 +888,20 @@ def _sid_rules(prog):
                     'counter `%s`: first value %s (%s), other definitions %d; file id: %s' \
                     % (cnt.id, val, how, len(other), src_why)
         verdict = True if ok else None
-        if not ok and isinstance(cnt, ast.Name):
+        if not ok and isinstance(cnt, ast.Name) and isinstance(fid, ast.Name) and fid is not None:
+            # the two values the wrong way round: the file's id under `continuous`, the running number without it
+            try:
+                val2, how2, other2 = _counter_first_value(f, fid.id, nocont[0][2])
+                src2, _w2 = _file_id_ok(f, nm, cnt, cont[0][2])
+            except Exception:
+                val2 = src2 = None
+                other2 = [1]
+            if val2 == 1 and not other2 and src2:
+                verdict = False
+                why = 'with `continuous` the id read from the file (`%s`) is stored, without it the running number `%s`: ' \
+                      'the option does the opposite of what is documented, and every plain conversion renumbers the sentences' \
+                      % (cnt.id, fid.id)
+        if not ok and verdict is None and isinstance(cnt, ast.Name):
             if val is not None and val != 1:
                 verdict = False
             elif src_ok is False and ('.search(' in src_why or '.match(' in src_why or '[0]' in src_why):
